@@ -124,3 +124,7 @@ def compile_spec(spec, mode="plain"):
         return HiFiber(Einsum(copy.deepcopy(y)), Mapping(copy.deepcopy(y)), Architecture(copy.deepcopy(y)),
                        Bindings(copy.deepcopy(y)), Format(copy.deepcopy(y)))
     return HiFiber(Einsum(copy.deepcopy(y)), Mapping(copy.deepcopy(y)))
+
+
+def canon(x):
+    return json.dumps(x, sort_keys=True, default=str, separators=(",", ":"))
